@@ -416,6 +416,40 @@ theorem C03_shipped_vectors :
   refine ⟨?_, ?_, ?_, ?_, ?_, ?_, ?_, ?_, ?_, ?_, ?_, ?_, ?_, ?_, ?_, ?_, ?_, ?_, ?_, ?_, ?_, ?_, ?_, ?_,
     ?_, ?_, ?_, ?_, ?_, ?_⟩ <;> decide +kernel
 
+/-! ### Fuel is irrelevant
+
+The interpreter is total by fuel.  Once a run is defined its result is the
+result for EVERY larger fuel (proved by simultaneous induction over the four
+mutually recursive functions, `Proofs/Mpcl.lean` `fuel_mono_succ`): the
+driver's choice of fuel cannot influence an answer, only turn it into
+`model-error`. -/
+
+theorem C03_fuel_irrelevant (P : Prog) (f f' : Nat) (hle : f ≤ f') (main : Nat) (args r : List Val)
+    (h : run P f main args = some r) : run P f' main args = some r :=
+  run_mono P hle main args r h
+
+theorem C03_fuel_irrelevant_raw (P : Prog) (f f' : Nat) (hle : f ≤ f') (main : Nat) (args : List Nat)
+    (r : List (Nat × Nat)) (h : runRaw P f main args = some r) : runRaw P f' main args = some r := by
+  unfold runRaw at h ⊢
+  cases hm : P[main]? with
+  | none => simp [hm] at h
+  | some fn =>
+    simp only [hm] at h ⊢
+    split at h
+    · simp at h
+    · rename_i hl
+      simp only [hl, if_false]
+      cases hr : run P f main ((fn.params.zip args).map fun (p, n) => p.2.decode n) with
+      | none => simp [hr] at h
+      | some rs =>
+        simp only [hr] at h
+        simp only [run_mono P hle main _ rs hr]
+        exact h
+
+example : runRaw pDivi 9 0 [i64 43, i64 4] = some [(i64 10, 64)] ∧
+    runRaw pDivi 100000 0 [i64 43, i64 4] = some [(i64 10, 64)] :=
+  ⟨by decide +kernel, C03_fuel_irrelevant_raw pDivi 9 100000 (by decide) 0 _ _ (by decide +kernel)⟩
+
 /-! ### Witnesses of the known deviations of the pinned compiler
 
 The property is *violated* by /repo on the program shapes below (each replayed
